@@ -135,9 +135,14 @@ package runtime
 //@ pred okElem(e Element) = e != nil && e.ptr != 0
 
 //@ iface Element.String(self) (s)
+//@   modifies nothing
 //@ iface Element.GetProperty(self, name) (r, err)
 //@   ensures err == nil ==> okElem(r)
 //@ iface Element.SetProperty(self, name, value) (err)
 //@   requires okElem(value)
 //@ iface Element.ExecMethod(self, name, params) (r, err)
+//@   ensures err == nil ==> okElem(r)
+
+// the executor of a method / constructor: whatever it does, a nil error comes with a usable result
+//@ functype FuncExecutor(receiver, params) (r, err)
 //@   ensures err == nil ==> okElem(r)
